@@ -87,6 +87,49 @@ def check_file(ctx, model, nptdms, data, exhaustive, stats):
     return dis, vio
 
 
+def scaled_window_check(ctx, nptdms, data, stats, graph=None):
+    """a channel with NI_Scale properties: every window and a sample of slices of the SCALED data, on one eagerly read object and on
+    one lazily opened file, against the slice of the first full read (byte-equal), requests issued one after the other"""
+    import io
+    import numpy as np
+    vbz = lambda x: canon.value_bytes(np.asarray(x))  # noqa
+    info = dict(kind="scaled-window", file=data.hex(), graph=str(graph)[:300])
+    try:
+        che = nptdms.TdmsFile.read(io.BytesIO(data))["g"]["c"]
+        full = np.array(che[:])
+    except Exception:
+        return []
+    n = len(full)
+    fl = nptdms.TdmsFile.open(io.BytesIO(data))
+    chl = fl["g"]["c"]
+    vio = []
+    reqs = [(o, l) for o in range(n + 1) for l in [None] + list(range(n + 2 - o))]
+    ctx.rnd.shuffle(reqs)
+    for label, ch in (("read", che), ("open", chl)):
+        for o, l in reqs[:24]:
+            stats["scaled_windows"] = stats.get("scaled_windows", 0) + 1
+            r = cl.call(lambda: ch.read_data(o, l))
+            want = full[o:] if l is None else full[o:o + l]
+            if r[0] != "ok" or vbz(np.asarray(r[1]).astype(full.dtype) if np.asarray(r[1]).size == 0 else r[1]) != vbz(want):
+                vio.append(Violation("scaled channel, TdmsFile.%s: read_data(%d,%s) gives %s, the slice of the full scaled data is %s" % (
+                    label, o, l, [repr(x) for x in np.asarray(r[1]).tolist()[:6]] if r[0] == "ok" else r[2], [repr(x) for x in want.tolist()[:6]]), dict(info, offset=o, length=l)))
+                break
+        for _ in range(10):
+            a, b, st = (ctx.rnd.choice([None] + list(range(-n - 1, n + 2))) for _ in range(3))
+            if st == 0:
+                continue
+            stats["scaled_windows"] = stats.get("scaled_windows", 0) + 1
+            r = cl.call(lambda: ch[a:b:st])
+            want = full[a:b:st]
+            if r[0] != "ok" or vbz(np.asarray(r[1]).astype(full.dtype) if np.asarray(r[1]).size == 0 else r[1]) != vbz(want):
+                vio.append(Violation("scaled channel, TdmsFile.%s: [%s:%s:%s] differs from the slice of the full scaled data" % (label, a, b, st), dict(info, slice=[a, b, st])))
+                break
+        if vio:
+            break
+    fl.close()
+    return vio
+
+
 def cut_points(ctx, nptdms, data, n=2):
     try:
         last = nptdms.TdmsFile.open(cl.RecordingStream(data))._reader._segments[-1]
@@ -105,6 +148,11 @@ def run(ctx):
     fs = FileStream(ctx, model, ctx.n(400, 14000), max_n=4)
     disagreements, violations, samples = [], [], []
     nontrivial = 0
+    from props import C03
+    for sdata, graph in C03.scaled_files(ctx, model, ctx.n(60, 1200)):
+        violations += scaled_window_check(ctx, nptdms, sdata, stats, graph)
+        if len(violations) >= 3:
+            break
     for i, segs, e, data, feats, new in fs:
         d, v = check_file(ctx, model, nptdms, data, ctx.tier == "thorough" or i % 4 == 0, stats)
         disagreements += d
@@ -142,11 +190,11 @@ def run(ctx):
             if len(violations) >= 5:
                 break
         stats["daqmx_windows"] = dstats["windows"]
-    ev = stats["windows"] + stats["slices"] + stats["indices"] + stats["eager_windows"] + stats.get("daqmx_windows", 0)
+    ev = stats["windows"] + stats["slices"] + stats["indices"] + stats["eager_windows"] + stats.get("daqmx_windows", 0) + stats.get("scaled_windows", 0)
     return dict(violations=violations, disagreements=disagreements,
                 coverage=dict(evaluations=ev, distinct_nontrivial=nontrivial,
                               rule=RULE_FILES + "; per channel: windows (off,len) over 0..n+2 incl. None, slices over [-n-2,n+2]∪{None} x steps "
-                                   "{None,±1,±2,±3,±n,0}, all integer indices in [-n-1,n] ascending then descending (cache), exhaustive for small channels; windows of DAQmx scaler data on generated DAQmx files; every third file additionally cut at 2 offsets inside its last segment's raw data with all requests; "
+                                   "{None,±1,±2,±3,±n,0}, all integer indices in [-n-1,n] ascending then descending (cache), exhaustive for small channels; windows of DAQmx scaler data on generated DAQmx files; windows and slices of the SCALED data of channels with NI_Scale properties (structural and sensor scales) on one eager object and one lazily opened file, one request after the other, against the first full read; every third file additionally cut at 2 offsets inside its last segment's raw data with all requests; "
                                    "distinct_nontrivial counts distinct multi-segment or multi-chunk files with data",
                               samples=samples, files=fs.drawn, requests=stats, feature_counts=dict(sorted(fs.feats.items()))))
 
@@ -157,6 +205,11 @@ def search(ctx, broken, disagreements):
         return []
     model = ctx.get_model()
     stats = dict(windows=0, slices=0, indices=0, eager_windows=0)
+    from props import C03
+    for sdata, graph in C03.scaled_files(ctx, model, ctx.n(150, 1200)):
+        v = scaled_window_check(ctx, nptdms, sdata, stats, graph)
+        if v:
+            return v[:1]
     for i, segs, e, data, feats, new in FileStream(ctx, model, ctx.n(300, 3000), max_n=4):
         _, v = check_file(ctx, None, nptdms, data, True, stats)
         if v:
@@ -174,11 +227,18 @@ def replay(ctx, path):
         rp = json.load(f)["replay"]
     data = bytes.fromhex(rp["file"])
     stats = dict(windows=0, slices=0, indices=0, eager_windows=0)
-    _, v = check_file(ctx, None, ctx.nptdms(), data, True, stats)
+    if rp.get("kind") == "scaled-window":
+        v = []
+        for _ in range(10):
+            v = v or scaled_window_check(ctx, ctx.nptdms(), data, stats)
+    else:
+        _, v = check_file(ctx, None, ctx.nptdms(), data, True, stats)
     print("replay: %s" % ([x.what for x in v[:3]] or "property holds on this file"))
     return 1 if v else 0
 
 
 def corpus(ctx, entry):
     stats = dict(windows=0, slices=0, indices=0, eager_windows=0)
+    if entry["replay"].get("kind") == "scaled-window":
+        return [], scaled_window_check(ctx, ctx.nptdms(), bytes.fromhex(entry["replay"]["file"]), stats)
     return check_file(ctx, ctx.get_model() if ctx.build_ok else None, ctx.nptdms(), bytes.fromhex(entry["replay"]["file"]), True, stats)
